@@ -20,7 +20,7 @@ RULE = ("object files built with the real assembler: 4 section layouts (one .tex
         "executed in one process per shard so that consecutive operations have different sections lists. Oracle: the "
         "harness runs `objdump -d -M att [-j s]... file` itself; if objdump exits non-zero the binary route must raise; "
         "otherwise the instruction stream and the result lists of the binary route equal those of the assembly route on "
-        "that text; the recorded argv of JASM's objdump call is exactly -d -M att (-j s)* file. Non-trivial = cases whose "
+        "that text. The argv of JASM's objdump call is recorded by a PATH shim and reported in the evidence, but not judged (equivalent command lines exist). Non-trivial = cases whose "
         "objdump text contains at least one instruction.")
 ASSUMPTIONS = ["GNU objdump 2.40 / GNU as on PATH; only AT&T style (style: intel is outside the property)"]
 LEVEL_TEXT = ("All layouts x bodies x classes x sections lists x rules of the stated sets; both routes compared on stream and "
@@ -56,6 +56,9 @@ def layout_source(layout, body, body2):
     if layout == 2:
         return (f".text\n{body}.data\n.long 0x11223344\n.quad 0x9090909090909090\n.section .plt,\"ax\"\n{body2}",
                 [".text", ".data", ".plt"])
+    if layout == 5:   # a data object inside an executable section (jump table): objdump -d prints it as data, -D as code
+        return (f".text\n{body} jmp 1f\n.type tbl,@object\ntbl:\n .long 0x90909090\n .long 0xc3c3c3c3\n.size tbl,8\n1:\n ret\n"
+                f".data\n.type var,@object\nvar:\n .quad 0x9090909090909090\n.size var,8\n", [".text", ".data"])
     if layout == 4:   # section names with upper-case letters; two names differing only in case
         return (f".text\n{body}.section INIT,\"ax\"\n{body2}.section .CODE,\"ax\"\n ret\n.section .code,\"ax\"\n nop\n ret\n",
                 [".text", "INIT", ".CODE", ".code"])
@@ -86,9 +89,9 @@ def shards(tier):
     sh = []
     for cls in (64, 32):
         bodies = range(len(BODIES) + len(RAW)) if cls == 64 else range(len(BODIES32) + len(RAW))
-        for layout in range(5):
+        for layout in range(6):
             for b in bodies:
-                if layout in (3, 4) and b > 0:
+                if layout in (3, 4, 5) and b > 0:
                     continue
                 sh.append({"cls": cls, "layout": layout, "body": b})
     return sh
@@ -153,9 +156,10 @@ def run_shard(shard, tier, h, res, known):
                         res.fail({**case, "clause": "stream", "expected": exp_stream[:300], "observed": got_stream[:300]}, known)
                     elif got != exp:
                         res.fail({**case, "clause": "result", "expected": exp, "observed": got}, known)
-                    if any(a != want_argv for a in argvs) or not argvs:
-                        res.fail({**case, "clause": "argv", "expected": want_argv.replace(obj, "<file>"),
-                                  "observed": [a.replace(obj, "<file>") for a in argvs]}, known)
+                    # the exact command line is not part of the property (equivalent spellings exist): recorded, not judged
+                    res.count("objdump_invocations", len(argvs))
+                    if any(a != want_argv for a in argvs):
+                        res.count("argv_differs_from_canonical")
         if len(res.samples) < 1:
             res.samples.append({"elfclass": cls, "layout_sections": names, "source": src[:200], "sections_lists": [str(s) for s in section_lists(names)][:6]})
     finally:
@@ -185,4 +189,4 @@ def replay(case, h):
     t = h.write("r.txt", ref.stdout)
     ma = h.mop(case["rule"])
     es, e = h.match(ma, t, ret="stream"), h.match(ma, t, mode=case["mode"])
-    return (gs, g) != (es, e) or case["clause"] == "argv", f"binary={g} text={e} streams_equal={gs == es}"
+    return (gs, g) != (es, e), f"binary={g} text={e} streams_equal={gs == es}"
